@@ -102,7 +102,7 @@ pub fn decode(data: &[u8]) -> Option<Vec<u8>> {
 #[cfg(test)]
 mod tests {
     use super::*;
-    use crate::testutil::Rng;
+    use crate::refimpl::testutil::Rng;
 
     const PLAIN: A85Style = A85Style { use_z: true, eod: true, whitespace_every: 0, ws_byte: b'\n' };
 
